@@ -36,7 +36,7 @@ template <int N> struct St : FSM::State {
 struct Log : M::LoggerInterface { std::vector<std::array<int,3>> tr; void recordTransition(const Context&, const StateID origin, const TransitionType t, const StateID target) override { tr.push_back({(int)origin,(int)t,(int)target}); } };
 struct Task { int origin, dest, type; bool operator==(const Task&o)const{return origin==o.origin&&dest==o.dest&&type==o.type;} };
 int main(int argc,char**argv){
-  unsigned seed=argc>1?atoi(argv[1]):1; int iters=argc>2?atoi(argv[2]):50000; bool kindQuirk = !(argc>3 && argv[3][0]=='0');
+  unsigned seed=argc>1?atoi(argv[1]):1; int iters=argc>2?atoi(argv[2]):50000; bool kindQuirk = !(argc>3 && argv[3][0]=='0'); bool leak = (argc>4 && argv[4][0]=='1');
   Ctx ctx{}; Log log; FSM::Instance fsm{ctx,&log}; fsm.enter(); std::mt19937 g(seed);
   auto readPlan=[&](int r){ std::vector<Task> v; auto p=fsm.plan((hfsm2::RegionID)r); for (auto it=p.begin(); it; ++it) v.push_back(Task{(int)it->origin,(int)it->destination,(int)it->type}); return v; };
   bool planExists[5]={0,0,0,0,0};
@@ -54,10 +54,17 @@ int main(int argc,char**argv){
     // model
     int mk[NS]; for(int i=0;i<NS;++i) mk[i]= act[i]? ctx.mark[i]:0; mk[0]=0; // root cannot succeed (ROOT_ID < stateId)
     std::vector<std::array<int,3>> expReq; std::vector<std::pair<int,int>> expCb; std::vector<Task> expPlans[5]; for(int r=0;r<5;++r) expPlans[r]=plans[r];
+    // F13 emulation: control-wide accumulator, last mark wins, cleared when a region scope is left
+    int hstat[NS]; int sstat[NS]; for(int i=0;i<NS;++i){hstat[i]=0;sstat[i]=0;}
+    if (leak) { int acc=0; std::function<int(int)> visit=[&](int s)->int{ // returns status returned by deepUpdate of s
+        if (!isRegion[s]) { if (s>0 && mk[s]) acc=mk[s]; return acc; }
+        if (s>0 && mk[s]) acc=mk[s]; int h=acc; if (h>hstat[s]) hstat[s]=h;
+        for(int c=s+1;c<NS;++c) if (parent[c]==s && act[c]) { int r=visit(c); if (r>sstat[s]) sstat[s]=r; }
+        acc=0; return h; }; visit(0); }
     std::function<int(int)> evalState=[&](int s)->int{
       if (!isRegion[s]) return mk[s]==2?2:(mk[s]==1?1:0);
-      int r=regionOf[s]; int h = mk[s]==2?2:(mk[s]==1?1:0);
-      int sres=0; for(int c=s+1;c<NS;++c) if (parent[c]==s && act[c]) { int cr=evalState(c); if (cr>sres) sres=cr; }
+      int r=regionOf[s]; int h = mk[s]==2?2:(mk[s]==1?1:0); if (leak && hstat[s]>h) h=hstat[s];
+      int sres= leak? sstat[s]:0; for(int c=s+1;c<NS;++c) if (parent[c]==s && act[c]) { int cr=evalState(c); if (cr>sres) sres=cr; }
       if (h) return h;
       if (!sres || !planExists[r]) return sres;
       if (sres==2) { expCb.push_back({s,2}); if (s>0) mk[s]=2; return 2; }
